@@ -173,6 +173,28 @@ pub fn run(tier: Tier) -> i32 {
             }
         }
     }
+    // references $1 .. $25 (also with a leading zero) on feature lists of 0, 9, 10, 11 and 21 columns
+    for ncols in [0usize, 9, 10, 11, 21] {
+        let feats21: Vec<String> = (1..=ncols).map(|i| format!("f{i}")).collect();
+        for n in 1..=25usize {
+            for spelled in [format!("${n}"), format!("$0{n}")] {
+                st.states += 1;
+                st.transitions += 1;
+                st.count("two_digit_reference_cases");
+                let rules = vec![(vec!["*".to_string()], vec![spelled.clone(), "k".to_string(), format!("${}", (n % 25) + 1)]), (vec![], vec!["EMPTY".to_string(), spelled.clone()])];
+                let rules: Vec<(Vec<String>, Vec<String>)> = if ncols == 0 { vec![rules[1].clone()] } else { vec![rules[0].clone()] };
+                let want = reference(&rules, &feats21);
+                match guard(|| rewrite(&rules, &feats21)) {
+                    Ok(g) if g == want => {}
+                    other => st.violation(Finding {
+                        class: "reference-index-semantics".into(),
+                        what: format!("rule output {:?} on {ncols} features: got {:?}, expected {:?}", rules[0].1, other, want),
+                        replay: json!({"kind": "rewrite", "rules": [format!("{} {}", rules[0].0.join(","), rules[0].1.join(","))], "features": feats21}),
+                    }),
+                }
+            }
+        }
+    }
     // dictionary level: the trainer applies each section's rewriter and falls back to the
     // ORIGINAL features when that section has no matching rule
     crate::props::train::dict_level_c17(tier, &mut st);
@@ -186,6 +208,7 @@ pub fn run(tier: Tier) -> i32 {
             "cases_without_match",
             "cases_where_a_later_rule_shares_a_prefix_with_a_non_adjacent_earlier_rule",
             "rewrite_def_text_cases",
+            "two_digit_reference_cases",
             "trained_models_with_rewrite_rules",
             "rows_checked_for_connection_classes",
         ],
